@@ -882,11 +882,11 @@ def rule_P0(ctx):
 def run(ctx):
     ctx.assume("pickle.load raises on a truncated pickle stream; gzip raises EOFError/BadGzipFile on a truncated or corrupt member (trusted base, not decided here)")
     ctx.assume("who-may-call is over-approximated by name: a function may call every repository function whose name it mentions")
-    rule_FX(ctx)
-    rule_P0(ctx)
-    f1 = rule_F1(ctx)
-    rule_F2(ctx, f1)
-    rule_F3(ctx)
+    ctx.soft(rule_FX)
+    ctx.soft(rule_P0)
+    f1 = ctx.soft(rule_F1)
+    ctx.soft(rule_F2, f1)
+    ctx.soft(rule_F3)
 
 
 # --------------------------------------------------------------------------- self-test catalogue
